@@ -16,6 +16,13 @@ build + audit Properties/C16 and the driver -> correspondence:
      driver) and every single-bit-corrupted trailer, and for even polynomials the trailer corrupted
      by the kernel word of the one-bit step (theorem even_poly_false_match).
 
+  A' every software case again with the words in another container form (tuple, bytes, bytearray,
+     generator, iter(list), map, re-iterable class, one-shot iterator class, deque, range): `data` is an
+     iterable of int, the CRC depends on the sequence of words only;
+  M  sequences on one `Algorithm` object: algo(w) used (compute / residue / simulated Processor), attributes
+     reassigned, algo(w) used again with the same and with other data widths; every use against the model
+     for the attribute values in force at that moment.
+
 A false match with an even polynomial is the recorded finding class "C16-even-poly".
 """
 import concurrent.futures
@@ -32,8 +39,9 @@ FINDING_TEXT = ("Algorithm() accepts even polynomials, for which match_detected 
 
 SIZES = {
     #            msgs/combo  random-sw  malformed  residues  mats  hw-runs  match-cases  workers
-    "quick":    dict(msgs=2, rnd=1500, bad=300, res=150, mats=60, hw=160, match=60, workers=16),
-    "thorough": dict(msgs=12, rnd=15000, bad=3000, res=1500, mats=600, hw=1800, match=500, workers=16),
+    "quick":    dict(msgs=2, rnd=1500, bad=300, res=150, mats=60, hw=160, match=60, workers=16, rng=120, mut=120),
+    "thorough": dict(msgs=12, rnd=15000, bad=3000, res=1500, mats=600, hw=1800, match=500, workers=16, rng=1200,
+                     mut=1500),
 }
 
 
@@ -111,6 +119,222 @@ def rel(dw, w):
 
 
 # ------------------------------------------------------------------------------------------------
+# the word sequence handed to `compute` in several container forms ("data: iterable of int"): the CRC is a
+# function of the sequence of words, not of the Python object that carries it
+
+class _Iterable:
+    """re-iterable, but neither a sequence (no __len__ / __getitem__) nor its own iterator"""
+    def __init__(self, ws):
+        self._ws = list(ws)
+
+    def __iter__(self):
+        return iter(list(self._ws))
+
+
+class _Iterator:
+    """one-shot: its own iterator, a second pass sees nothing"""
+    def __init__(self, ws):
+        self._ws = list(ws)
+        self._i = 0
+
+    def __iter__(self):
+        return self
+
+    def __next__(self):
+        if self._i >= len(self._ws):
+            raise StopIteration
+        self._i += 1
+        return self._ws[self._i - 1]
+
+
+FORMS = ["tuple", "bytes", "generator", "iter", "bytearray", "map", "iterable-class", "iterator-class", "deque"]
+ONE_SHOT = {"generator", "iter", "map", "iterator-class"}
+
+
+def as_range(ws):
+    """the range object that yields exactly ws, or None"""
+    if len(ws) == 0:
+        return range(0)
+    if len(ws) == 1:
+        return range(ws[0], ws[0] + 1)
+    step = ws[1] - ws[0]
+    if step == 0:
+        return None
+    r = range(ws[0], ws[-1] + (1 if step > 0 else -1), step)
+    return r if list(r) == list(ws) else None
+
+
+def form_legal(ws, form):
+    if form in ("bytes", "bytearray"):
+        return all(type(x) is int and 0 <= x <= 255 for x in ws)
+    if form == "range":
+        return as_range(ws) is not None
+    return True
+
+
+def as_form(ws, form):
+    import collections
+    ws = list(ws)
+    if form == "list":
+        return ws
+    if form == "tuple":
+        return tuple(ws)
+    if form == "bytes":
+        return bytes(ws)
+    if form == "bytearray":
+        return bytearray(ws)
+    if form == "generator":
+        return (x for x in ws)
+    if form == "iter":
+        return iter(ws)
+    if form == "map":
+        return map(lambda x: x, ws)
+    if form == "iterable-class":
+        return _Iterable(ws)
+    if form == "iterator-class":
+        return _Iterator(ws)
+    if form == "deque":
+        return collections.deque(ws)
+    if form == "range":
+        return as_range(ws)
+    raise AssertionError(form)
+
+
+def alt_forms(i, kind, ws):
+    """the container forms (besides the list) in which case number i is also handed to compute"""
+    out = ["range"] if kind == "range" else []
+    for k in range(2 if kind == "check" else 1):
+        for j in range(len(FORMS)):
+            f = FORMS[(i + k * 3 + j) % len(FORMS)]
+            if form_legal(ws, f) and f not in out:
+                out.append(f)
+                break
+    return out
+
+
+# ------------------------------------------------------------------------------------------------
+# sequences on ONE Algorithm object: algo(w) used, an attribute reassigned, algo(w) used again. `algo(w)` is
+# "Parameters(self, data_width)" of the algorithm as it is *now*.
+
+ATTRS = ["crc_width", "polynomial", "initial_crc", "reflect_input", "reflect_output", "xor_output"]
+
+
+def gen_mutation_sequence(rng, start, hw_share):
+    """-> (t0, steps); steps: ("set", {attr: value}) | ("sw", dw, words) | ("res", dw) | ("hw", dw, script);
+    and the parameter tuple in force at every step"""
+    cur = list(start)
+    steps, at = [], []
+    used = []
+
+    def uses():
+        for _ in range(rng.randint(1, 3)):
+            w = cur[0]
+            if used and rng.random() < 0.7:
+                dw = rng.choice(used)
+            else:
+                dw = rng.choice([8, 8, 1, 3, w, w + 5, rng.randint(1, w + 4)])
+                if w > 32 and dw > 32:
+                    dw = 8
+                used.append(dw)
+            r = rng.random()
+            if r < hw_share:
+                script = []
+                for c in range(rng.randint(5, 12)):
+                    script.append((int(c == 0 or rng.random() < .1), int(rng.random() < .8),
+                                   rng.choice([0, (1 << dw) - 1, rng.getrandbits(dw), rng.getrandbits(dw)])))
+                steps.append(("hw", dw, script))
+            elif r < hw_share + 0.12:
+                steps.append(("res", dw))
+            else:
+                n = rng.choice([0, 1, 2, 3, 5, 9]) if dw > 1 else rng.randint(0, 30)
+                steps.append(("sw", dw, [rng.getrandbits(dw) for _ in range(n)]))
+            at.append(tuple(cur))
+
+    def fresh(old, w):
+        if w == 1:
+            return (old & 1) ^ 1
+        while True:
+            v = rng.choice([0, (1 << w) - 1, rng.getrandbits(w), rng.getrandbits(w)])
+            if v != old:
+                return v
+
+    uses()
+    for _ in range(rng.randint(1, 3)):
+        change = {}
+        for attr in rng.sample(ATTRS, rng.choice([1, 1, 1, 2, 3])):
+            k = ATTRS.index(attr)
+            if attr == "crc_width":
+                w = cur[0]
+                while w == cur[0]:
+                    w = rng.choice([max(1, cur[0] - rng.randint(1, 8)), cur[0] + rng.randint(1, 8), rng.randint(1, 40)])
+                change[attr] = w
+            elif attr in ("reflect_input", "reflect_output"):
+                change[attr] = not cur[k]
+            else:
+                change[attr] = None         # value chosen below, once the width is known
+        w = change.get("crc_width", cur[0])
+        for attr in ("polynomial", "initial_crc", "xor_output"):
+            k = ATTRS.index(attr)
+            if attr in change:
+                change[attr] = fresh(cur[k], w)
+                if attr == "polynomial" and rng.random() < 0.75:
+                    change[attr] |= 1
+                    if change[attr] == cur[k]:
+                        change[attr] = fresh(cur[k], w)
+            elif cur[k] >= (1 << w):
+                change[attr] = cur[k] & ((1 << w) - 1)      # keep the set valid for the narrower register
+        for attr, v in change.items():
+            cur[ATTRS.index(attr)] = int(v)
+        steps.append(("set", {a: (bool(v) if a.startswith("reflect") else v) for a, v in change.items()}))
+        at.append(tuple(cur))
+        uses()
+    return tuple(start), steps, at
+
+
+def _simulate(p, script):
+    from amaranth.hdl import Period
+    from amaranth.sim import Simulator
+    sim = Simulator(p)
+    sim.add_clock(Period(MHz=1))
+    out = []
+
+    async def tb(ctx):
+        for st, va, d in script:
+            ctx.set(p.start, st)
+            ctx.set(p.valid, va)
+            ctx.set(p.data, d)
+            await ctx.tick()
+            out.append((ctx.get(p.crc), ctx.get(p.match_detected)))
+    sim.add_testbench(tb)
+    sim.run()
+    return out
+
+
+def _mut_worker(job):
+    """job = (t0, steps) -> one entry per step: None for "set", ('ok', value) | ('err', kind) for a use"""
+    import warnings
+    warnings.simplefilter("ignore")
+    t0, steps = job
+    a = mk_algo(t0)
+    out = []
+    for st in steps:
+        try:
+            if st[0] == "set":
+                for k, v in st[1].items():
+                    setattr(a, k, v)
+                out.append(None)
+            elif st[0] == "sw":
+                out.append(("ok", str(a(st[1]).compute(list(st[2])))))
+            elif st[0] == "res":
+                out.append(("ok", str(a(st[1]).residue())))
+            else:
+                out.append(("ok", _simulate(a(st[1]).create(), st[2])))
+        except Exception as e:  # noqa
+            out.append(("err", common.errkind(e) + ": " + str(e)[:200]))
+    return out
+
+
+# ------------------------------------------------------------------------------------------------
 # the real hardware, in worker processes
 
 def _hw_worker(job):
@@ -119,28 +343,12 @@ def _hw_worker(job):
     warnings.simplefilter("ignore")
     t, dw, script = job
     try:
-        from amaranth.hdl import Period
-        from amaranth.sim import Simulator
         # one Parameters object is legitimately used several times (create(), residue(), algorithm):
         # every use must see the same algorithm, so exercise 0-2 earlier uses before the one observed
         pp = mk_algo(t)(dw)
         for _k in range(len(script) % 3):
             pp.residue(); pp.create(); pp.algorithm
-        p = pp.create()
-        sim = Simulator(p)
-        sim.add_clock(Period(MHz=1))
-        out = []
-
-        async def tb(ctx):
-            for st, va, d in script:
-                ctx.set(p.start, st)
-                ctx.set(p.valid, va)
-                ctx.set(p.data, d)
-                await ctx.tick()
-                out.append((ctx.get(p.crc), ctx.get(p.match_detected)))
-        sim.add_testbench(tb)
-        sim.run()
-        return ("ok", out)
+        return ("ok", _simulate(pp.create(), script))
     except Exception as e:  # noqa
         return ("err", common.errkind(e) + ": " + str(e)[:200])
 
@@ -265,51 +473,72 @@ def run(chk):
         words[rng.randrange(len(words))] = rng.choice([1 << dw, -1, (1 << dw) + rng.getrandbits(4), -(1 << dw)])
         sw_cases.append(("badword", t, dw, words))
 
+    # B2. arithmetic progressions, so that the same words can also be handed over as a `range` --------------
+    for _ in range(cfg["rng"]):
+        t = rand_params(rng, wmax=24)
+        dw = rng.randint(2, 14)
+        n = rng.randint(0, 9)
+        step = rng.choice([1, 1, 2, 3, -1, -2, rng.randint(1, 1 << (dw - 1))])
+        span = abs(step) * max(n - 1, 0)
+        if span >= (1 << dw):
+            step, span = (1 if step > 0 else -1), max(n - 1, 0)
+            if span >= (1 << dw):
+                n, span = 1, 0
+        lo = rng.randint(0, (1 << dw) - 1 - span)
+        words = [lo + k * step for k in range(n)] if step > 0 else [lo + span + k * step for k in range(n)]
+        sw_cases.append(("range", t, dw, words))
+
     reqs = [f"(compute {pstr(t)} {dw} {' '.join(map(str, ws))})" for _tag, t, dw, ws in sw_cases]
     resps = chk.driver.ask(reqs)
 
-    def real_compute(t, dw, ws):
+    def real_compute(t, dw, ws, form="list"):
         try:
-            return str(mk_algo(t)(dw).compute(ws))
+            return str(mk_algo(t)(dw).compute(as_form(ws, form)))
         except Exception as ex:  # noqa
             return common.errkind(ex)
 
-    def sw_fails(t, dw, ws):
+    def sw_fails(t, dw, ws, form="list"):
+        if not form_legal(ws, form):
+            return False
         r = chk.driver.ask([f"(compute {pstr(t)} {dw} {' '.join(map(str, ws))})"])[0]
         d = common.kv(r)
-        return real_compute(t, dw, ws) != d.get("spec", "?") and d.get("spec") != "undefined"
+        return real_compute(t, dw, ws, form) != d.get("spec", "?") and d.get("spec") != "undefined"
 
-    for (tag, t, dw, ws), resp in zip(sw_cases, resps):
-        d = common.kv(resp)
-        if "model" not in d:
-            raise common.Infra(f"driver: {resp[:200]}")
-        impl = real_compute(t, dw, ws)
-        chk.count(1)
+    def judge_sw(tag, t, dw, ws, d, resp, form):
+        """one evaluation of the real compute on (params, data width, words carried as `form`)"""
         kind = tag.split(":")[0]
-        chk.distinct(("sw", t, dw, tuple(ws)), nontrivial=len(ws) > 0)
-        chk.hist("sw stream", kind)
-        chk.hist("crc_width", t[0] if t[0] <= 8 else f"{(t[0] - 1) // 8 * 8 + 1}-{(t[0] - 1) // 8 * 8 + 8}")
-        chk.hist("data width vs crc width", rel(dw, t[0]))
-        chk.hist("reflect in/out", f"{t[3]}{t[4]}")
-        chk.hist("polynomial", "zero" if t[1] == 0 else "even" if t[1] % 2 == 0 else "odd")
-        chk.hist("message words", len(ws) if len(ws) < 10 else "10+")
+        impl = real_compute(t, dw, ws, form)
+        chk.count(1)
+        chk.hist("sw container form", form)
+        how = "" if form == "list" else f" (words passed as {form})"
+        if form == "list":
+            chk.distinct(("sw", t, dw, tuple(ws)), nontrivial=len(ws) > 0)
+            chk.hist("sw stream", kind)
+            chk.hist("crc_width", t[0] if t[0] <= 8 else f"{(t[0] - 1) // 8 * 8 + 1}-{(t[0] - 1) // 8 * 8 + 8}")
+            chk.hist("data width vs crc width", rel(dw, t[0]))
+            chk.hist("reflect in/out", f"{t[3]}{t[4]}")
+            chk.hist("polynomial", "zero" if t[1] == 0 else "even" if t[1] % 2 == 0 else "odd")
+            chk.hist("message words", len(ws) if len(ws) < 10 else "10+")
+        else:
+            chk.distinct(("sw", t, dw, tuple(ws), form), nontrivial=len(ws) > 0)
+            chk.hist("sw container form, one-shot iterator with >= 1 word", form in ONE_SHOT and len(ws) > 0)
         if kind == "check":
             e = by_name.get(tag[6:])
             if e is not None and impl != str(e["check"]):
-                chk.violation(f"catalogue entry {tag[6:]}: compute(b'123456789') = {impl}, published check {e['check']:#x}",
-                              {"kind": "catalogue", "entry": e, "impl_check": impl})
-                continue
+                chk.violation(f"catalogue entry {tag[6:]}: compute(b'123456789'){how} = {impl}, published check {e['check']:#x}",
+                              {"kind": "catalogue", "entry": e, "impl_check": impl, "form": form})
+                return
         if d["spec"] == "undefined":
             # words outside the model's domain: the code must refuse them
             chk.hist("error kinds", impl if not impl.lstrip("-").isdigit() else "accepted")
             if impl != d["model"]:
                 if impl.lstrip("-").isdigit():
-                    chk.violation(f"compute accepted an out-of-range data word: {ws} at data_width {dw}",
-                                  {"kind": "badword", "params": t, "data_width": dw, "words": ws, "impl": impl})
+                    chk.violation(f"compute accepted an out-of-range data word: {ws} at data_width {dw}{how}",
+                                  {"kind": "badword", "params": t, "data_width": dw, "words": ws, "impl": impl, "form": form})
                 else:
                     chk.not_shown("error kind for an out-of-range data word differs from the model",
-                                  {"params": t, "data_width": dw, "words": ws, "impl": impl, "model": d["model"]})
-            continue
+                                  {"params": t, "data_width": dw, "words": ws, "impl": impl, "model": d["model"], "form": form})
+            return
         if impl != d["spec"]:
             # shrink: drop words while the disagreement stays
             cur = list(ws)
@@ -318,18 +547,26 @@ def run(chk):
             chk.extra["shrunk"] = n_shrunk + 1
             while i < len(cur) and n_shrunk < 5:
                 cand = cur[:i] + cur[i + 1:]
-                if sw_fails(t, dw, cand):
+                if sw_fails(t, dw, cand, form):
                     cur = cand
                 else:
                     i += 1
-            chk.violation(f"compute != Williams CRC: params={t} data_width={dw} words={cur}: "
-                          f"impl={real_compute(t, dw, cur)}",
+            chk.violation(f"compute != Williams CRC: params={t} data_width={dw} words={cur}{how}: "
+                          f"impl={real_compute(t, dw, cur, form)}",
                           {"kind": "compute", "params": t, "data_width": dw, "words": cur, "original_words": ws,
-                           "impl": real_compute(t, dw, cur), "stream": tag})
+                           "impl": real_compute(t, dw, cur, form), "stream": tag, "form": form})
         elif impl != d["model"]:
             chk.not_shown("compute: model differs from the code (code = spec)",
-                          {"params": t, "data_width": dw, "words": ws, "impl": impl, "model": d["model"]})
-        chk.sample({"stream": tag, "params": t, "data_width": dw, "words": ws, "impl": impl, "driver": resp}, limit=4)
+                          {"params": t, "data_width": dw, "words": ws, "impl": impl, "model": d["model"], "form": form})
+        chk.sample({"stream": tag, "params": t, "data_width": dw, "words": ws, "form": form, "impl": impl,
+                    "driver": resp}, limit=4)
+
+    for idx, ((tag, t, dw, ws), resp) in enumerate(zip(sw_cases, resps)):
+        d = common.kv(resp)
+        if "model" not in d:
+            raise common.Infra(f"driver: {resp[:200]}")
+        for form in ["list"] + alt_forms(idx, tag.split(":")[0], ws):
+            judge_sw(tag, t, dw, ws, d, resp, form)
 
     # C2. constructor range checks --------------------------------------------------------------------
     NONINT = [1.5, "8", None, 2.0, [1]]
@@ -489,46 +726,74 @@ def run(chk):
         if common.kv(resp).get("words", "") != ex:
             raise common.Infra(f"harness and Spec disagree on transmission order: {rq} -> {resp} vs {ex}")
 
+    # M. one Algorithm object, attributes reassigned between uses -------------------------------------------
+    mseqs = []
+    for i in range(cfg["mut"]):
+        start = ptuple(live[rng.choice(names)]) if i % 2 == 0 else rand_params(rng, wmax=24)
+        mseqs.append(gen_mutation_sequence(rng, start, hw_share=0.2))
+    m_reqs = []
+    for _t0, steps, at in mseqs:
+        for st, cur in zip(steps, at):
+            if st[0] == "sw":
+                m_reqs.append(f"(compute {pstr(cur)} {st[1]} {' '.join(map(str, st[2]))})")
+            elif st[0] == "res":
+                m_reqs.append(f"(residue {pstr(cur)})")
+            elif st[0] == "hw":
+                m_reqs.append(hw_request(cur, st[1], st[2]))
+    m_resps = iter(chk.driver.ask(m_reqs))
+
     hw_resps = chk.driver.ask([hw_request(t, dw, script) for _k, t, dw, script, _m in jobs])
     with concurrent.futures.ProcessPoolExecutor(max_workers=min(cfg["workers"], os.cpu_count() or 1)) as ex:
         hw_obs = list(ex.map(_hw_worker, [(t, dw, script) for _k, t, dw, script, _m in jobs], chunksize=2))
+        m_obs = list(ex.map(_mut_worker, [(t0, steps) for t0, steps, _at in mseqs], chunksize=2))
 
-    for (kind, t, dw, script, meta), resp, (status, obs) in zip(jobs, hw_resps, hw_obs):
+    def judge_hw(kind, t, dw, script, resp, status, obs, extra):
+        """the simulated Processor against Spec and Model after every clock edge -> reported (None: no simulation)"""
         m_crc, m_match, s_crc, s_match = parse_hw(resp)
         even = t[1] % 2 == 0
-        base = {"kind": "hw-" + kind, "params": t, "data_width": dw, "script": script}
+        base = dict({"kind": "hw-" + kind, "params": t, "data_width": dw, "script": script}, **extra)
+        ctx = "".join(f"; {k}={v}" for k, v in extra.items() if k in ("after",))
         chk.count(len(script))
-        chk.distinct(("hw", t, dw, tuple(script)))
+        chk.distinct(("hw", t, dw, tuple(script)) + ((kind,) if extra else ()))
         chk.hist("hw stream", kind)
         chk.hist("hw data width vs crc width", rel(dw, t[0]))
         for st, va, _d in script:
             chk.hist("hw cycle kinds", ("start+valid" if st and va else "start" if st else "valid" if va else "idle"))
         if status != "ok":
-            chk.violation(f"Processor could not be simulated: {obs}", dict(base, error=obs))
-            continue
+            chk.violation(f"Processor could not be simulated: {obs}{ctx}", dict(base, error=obs))
+            return None
         reported = False
         for i, (c, md) in enumerate(obs):
             pre = {"cycle": i, "prefix": script[:i + 1]}
             if c != s_crc[i]:
                 chk.violation(f"Processor.crc = {c} after cycle {i}, Williams CRC of the words since start = {s_crc[i]}; "
-                              f"params={t} data_width={dw}", dict(base, **pre, impl=c, spec=s_crc[i]))
+                              f"params={t} data_width={dw}{ctx}", dict(base, **pre, impl=c, spec=s_crc[i]))
                 reported = True
                 break
             if s_match[i] != "-" and md != int(s_match[i]):
                 classes = [FINDING] if (even and md == 1) else []
                 chk.violation(f"match_detected = {md} after cycle {i} but the words since start "
                               f"{'are' if s_match[i] == '1' else 'are not'} a message followed by its own CRC; "
-                              f"params={t} data_width={dw}", dict(base, **pre, impl=md, spec=s_match[i], classes=classes))
+                              f"params={t} data_width={dw}{ctx}", dict(base, **pre, impl=md, spec=s_match[i], classes=classes))
                 if not classes:
                     reported = True
                     break
-                chk.hist("even-polynomial false matches", "random schedule" if kind == "sched" else "corrupted trailer")
+                chk.hist("even-polynomial false matches",
+                         {"sched": "random schedule", "match": "corrupted trailer"}.get(kind, kind))
                 continue
             if c != m_crc[i] or md != m_match[i]:
                 chk.not_shown("Processor: model differs from the simulated hardware (hardware = spec)",
                               dict(base, **pre, impl=(c, md), model=(m_crc[i], m_match[i])))
                 reported = True
                 break
+        return reported
+
+    for (kind, t, dw, script, meta), resp, (status, obs) in zip(jobs, hw_resps, hw_obs):
+        even = t[1] % 2 == 0
+        base = {"kind": "hw-" + kind, "params": t, "data_width": dw, "script": script}
+        reported = judge_hw(kind, t, dw, script, resp, status, obs, {})
+        if reported is None:
+            continue
         if kind == "match" and not reported:
             for (vn, _cv), e in zip(meta["variants"], meta["ends"]):
                 md = obs[e][1]
@@ -545,14 +810,79 @@ def run(chk):
         chk.sample({"stream": "hw-" + kind, "params": t, "data_width": dw, "script": script[:12],
                     "impl": obs[:12], "driver": resp[:300]}, limit=6)
 
+    # M. judged: every use of algo(w) against the algorithm the object denotes at that moment
+    for (t0, steps, at), outs in zip(mseqs, m_obs):
+        history = []            # what has been done to the object so far, for the report
+        sets_so_far = 0
+        used_before_set = set()     # data widths asked for before the latest reassignment
+        used = set()
+        failed = False
+        for k, (st, cur, out) in enumerate(zip(steps, at, outs)):
+            if st[0] == "set":
+                history.append("set " + ",".join(f"{a}={int(v) if isinstance(v, bool) else v}" for a, v in st[1].items()))
+                sets_so_far += 1
+                used_before_set |= used
+                for a in st[1]:
+                    chk.hist("mutation sequences: attribute reassigned", a)
+                continue
+            resp = next(m_resps)
+            if failed:
+                continue        # (the response iterator must still advance)
+            dw = st[1]
+            chk.hist("mutation sequences: use", st[0])
+            chk.hist("mutation sequences: use after k reassignments", sets_so_far)
+            if sets_so_far:
+                chk.hist("mutation sequences: data width after a reassignment",
+                         "asked for before it" if dw in used_before_set else "new")
+            used.add(dw)
+            after = " -> ".join(history) if history else "nothing"
+            replay = {"kind": "algorithm-mutation", "initial_params": t0, "steps": steps[:k + 1], "params_now": cur,
+                      "data_width": dw}
+            where = (f"one Algorithm object, created as {t0}, after [{after}] (attributes now {cur}): algo({dw})")
+            history.append(f"{st[0]} algo({dw})")
+            if st[0] == "hw":
+                status, obs = out
+                rep = judge_hw("mutseq", cur, dw, st[2], resp, status, obs,
+                               {"after": f"one Algorithm object created as {t0}, then [{after}]", "initial_params": t0,
+                                "steps": steps[:k + 1]})
+                failed = rep is None or rep
+                continue
+            chk.count(1)
+            chk.distinct(("mut", t0, tuple(map(repr, steps[:k + 1]))))
+            d = common.kv(resp)
+            if "spec" not in d:
+                raise common.Infra(f"driver: {resp[:200]}")
+            status, val = out
+            what = f".compute({st[2]})" if st[0] == "sw" else ".residue()"
+            if status != "ok" or val != d["spec"]:
+                chk.violation(f"{where}{what} = {val}, the Williams model for the current attributes gives {d['spec']}",
+                              dict(replay, impl=val, spec=d["spec"]))
+                failed = True
+            elif val != d.get("model"):
+                chk.not_shown("compute/residue on a reassigned Algorithm: model differs from the code (code = spec)",
+                              dict(replay, impl=val, driver=resp))
+                failed = True
+        chk.hist("mutation sequences: steps", len(steps))
+        if not failed:
+            chk.sample({"stream": "algorithm-mutation", "initial_params": t0, "steps": steps, "outcomes": outs}, limit=7)
+
     chk.cov["rule"] = (
         "software: every catalogue name x data widths {1,3,8,w,w+5} x random messages (lengths 0..6 words, up to 40 "
         "for 1-bit words) plus random parameter sets (w 1..80, 25% even polynomials, extreme init/xorout, data widths "
         "below/equal/above w); distinct = (params, data_width, words), non-trivial = at least one word. hardware: one "
         "simulation per (params, data_width, script) with random start/valid/data per cycle, compared after every "
         "clock edge; match stream: message + true trailer and each single-bit-corrupted / random / kernel-word "
-        "corrupted trailer, with start alone or together with the first word and random idle gaps.")
+        "corrupted trailer, with start alone or together with the first word and random idle gaps. "
+        "container forms: every software case is evaluated with the words as a list and in one more form (two for the "
+        "check strings) taken in rotation from tuple / bytes / bytearray (words <= 255) / generator / iter(list) / map / "
+        "re-iterable class / one-shot iterator class / deque, and arithmetic progressions also as a range. "
+        "algorithm mutation: one Algorithm object (catalogue entry or random), 1-3 uses of algo(dw) (compute / residue / "
+        "simulated Processor), then 1-3 times: reassign 1-3 of crc_width / polynomial / initial_crc / reflect_input / "
+        "reflect_output / xor_output (values kept valid for the width) and use algo(dw) again with data widths asked for "
+        "before (70%) and new ones; every use is compared with the model for the attribute values at that moment.")
     chk.assumptions += [
+        "an Algorithm object denotes the parameter set given by its attributes at the moment algo(data_width) is called "
+        "(attributes are plain public fields; Parameters objects obtained earlier are not re-examined after a reassignment)",
         "the amaranth simulator runs the elaborated Processor faithfully (C04/C05 cover the simulator itself)",
         "Signal(data_width) truncates nothing here: scripts only drive data < 2**data_width",
         "transmission order of the trailing CRC: register MSB first, words laid out per reflect_input "
